@@ -27,6 +27,86 @@ def source_hash() -> str:
   return h.hexdigest()[:12]
 
 
+def file_hashes() -> dict:
+  import hashlib
+
+  root = os.path.join(os.environ.get("MJWARP_REPO", "/repo"), "mujoco_warp", "_src")
+  out = {}
+  for fn in sorted(os.listdir(root)):
+    if fn.endswith(".py") and not fn.endswith("_test.py"):
+      with open(os.path.join(root, fn), "rb") as f:
+        out[fn] = hashlib.sha1(f.read()).hexdigest()
+  return out
+
+
+def prepare_cache(mode: str) -> str:
+  """Returns the kernel cache dir for (mode, source tree), creating it if needed.
+
+  A new cache is seeded from the newest cache of the same mode, minus every cached module whose kernel is
+  defined in a source file that changed (Warp's module hash does not see every dependency of a kernel, e.g.
+  wp.func objects only referenced through wp.tile_map, which live next to their kernels); everything else is
+  re-validated by Warp's own content hash.  The parent runner calls this once before it starts workers."""
+  import re
+  import shutil
+
+  from mon import core
+
+  root = os.path.join(core.VERIF, ".cache")
+  cache = os.path.join(root, f"{mode}-{source_hash()}")
+  if os.path.isdir(cache):
+    return cache
+  os.makedirs(root, exist_ok=True)
+  cur = file_hashes()
+  cands = []
+  for d in os.listdir(root):
+    mf = os.path.join(root, d, "manifest.json")
+    if d.startswith(mode + "-") and os.path.exists(mf):
+      cands.append((os.path.getmtime(mf), d))
+  tmp = cache + f".tmp{os.getpid()}"
+  try:
+    if cands:
+      src = os.path.join(root, max(cands)[1])
+      old = json.load(open(os.path.join(src, "manifest.json")))
+      changed = [fn for fn in cur if old.get(fn) != cur[fn]] + [fn for fn in old if fn not in cur]
+      shutil.copytree(src, tmp, symlinks=True)
+      srcroot = os.path.join(os.environ.get("MJWARP_REPO", "/repo"), "mujoco_warp", "_src")
+      idents = set()
+      for fn in changed:
+        idents.add("_src." + fn[:-3] + "_")
+        for base in (srcroot, "/repo/mujoco_warp/_src"):
+          try:
+            idents.update(re.findall(r"^\s*def (\w+)\(", open(os.path.join(base, fn)).read(), re.M))
+          except Exception:
+            pass
+      for ver in os.listdir(tmp):
+        vd = os.path.join(tmp, ver)
+        if not os.path.isdir(vd):
+          continue
+        for ent in os.listdir(vd):
+          if any((i in ent) if i.startswith("_src.") else (f"_{i}_" in ent or f"_{i}__locals__" in ent or ent.startswith(f"wp_{i}_")) for i in idents):
+            shutil.rmtree(os.path.join(vd, ent), ignore_errors=True)
+    else:
+      os.makedirs(tmp, exist_ok=True)
+    with open(os.path.join(tmp, "manifest.json"), "w") as f:
+      json.dump(cur, f)
+    try:
+      os.rename(tmp, cache)
+    except OSError:
+      shutil.rmtree(tmp, ignore_errors=True)  # another process won the race
+  except Exception:
+    shutil.rmtree(tmp, ignore_errors=True)
+    os.makedirs(cache, exist_ok=True)
+  # prune: caches older than 3 h beyond the newest 4 of this mode (never one a running check may use)
+  try:
+    olds = sorted((d for d in os.listdir(root) if d.startswith(mode + "-") and ".tmp" not in d), key=lambda d: os.path.getmtime(os.path.join(root, d)))
+    for d in olds[:-4]:
+      if time.time() - os.path.getmtime(os.path.join(root, d)) > 3 * 3600:
+        shutil.rmtree(os.path.join(root, d), ignore_errors=True)
+  except Exception:
+    pass
+  return cache
+
+
 def setup_warp(mode: str):
   import warp as wp
 
@@ -35,19 +115,7 @@ def setup_warp(mode: str):
   # one kernel cache per (build mode, content of the observed source tree): Warp's module hash misses some
   # dependencies (e.g. wp.func objects only referenced through wp.tile_map), so a cache shared between
   # different source trees could serve stale kernels.  Caches older than 3 h are pruned beyond the newest 4 per mode.
-  cache = os.path.join(core.VERIF, ".cache", f"{mode}-{source_hash()}")
-  if not os.path.isdir(cache):
-    os.makedirs(cache, exist_ok=True)
-    try:
-      import shutil
-
-      root = os.path.join(core.VERIF, ".cache")
-      old = sorted((d for d in os.listdir(root) if d.startswith(mode + "-")), key=lambda d: os.path.getmtime(os.path.join(root, d)))
-      for d in old[:-4]:
-        if time.time() - os.path.getmtime(os.path.join(root, d)) > 3 * 3600:  # never a cache a running check may use
-          shutil.rmtree(os.path.join(root, d), ignore_errors=True)
-    except Exception:
-      pass
+  cache = prepare_cache(mode)
   wp.config.kernel_cache_dir = cache
   wp.config.quiet = True
   if "debug" in mode:
